@@ -254,8 +254,11 @@ def specC14 (h : List Op) (o : Obs) : Option String :=
       if aLookup "process_args" a.ev.metaExtra ≠ (if e.args.isEmpty then none else some (joinNul e.args))
         then some "process_args" else
       if !a.ev.data.isEmpty then some "data" else
-      -- all events of one session carry identical identity content
-      if o.acts.any fun (b : ObsAction) => b.aid = a.aid && decide (b.identity ≠ a.identity) then some "identity-changes-within-session"
+      -- all events of one session carry identical identity content — in histories emitting from one
+      -- login per PID (the property's quantifier: a second login under a PID in use re-binds its session)
+      if (loginOps h).all (fun l => count (fun l' => l'.2.pid = l.2.pid) (loginOps h) = 1) &&
+         (o.acts.any fun (b : ObsAction) => b.aid = a.aid && decide (b.identity ≠ a.identity))
+      then some "identity-changes-within-session"
       else none
 
 end AM.Spec.Tracker
